@@ -976,6 +976,11 @@ type maprangeSpec struct {
 		Why   string `json:"why"`   // why their outcome does not depend on the iteration order
 	} `json:"loops"` // key: "<function key> <map type>"
 	Why      string            `json:"why"`
+	// Sorts: for the loops whose reason is "the collected keys are sorted before use": function key -> number of
+	// calls that sort a slice of strings or integers by the canonical total order of its elements (sort.Strings,
+	// sort.Ints, slices.Sort). Those functions must contain exactly that many such calls and no sort with a custom
+	// comparator (sort.Slice, sort.SliceStable, sort.Sort, sort.Stable, slices.SortFunc, slices.SortStableFunc).
+	Sorts map[string]int `json:"canonical_sorts"`
 }
 
 // maprangeOutcome: Go iterates over maps in an unspecified order. Every `range` over a map in the listed packages
@@ -1049,6 +1054,47 @@ func maprangeOutcome(w *World, fo *funcOutcome) {
 	addObl("no-unreviewed-map-iteration", fmt.Sprintf("every range over a map in %v is on the reviewed list; not listed: %v (%s)", ms.Packages, unlisted, ms.Why), len(unlisted) == 0)
 	addObl("list-current", fmt.Sprintf("every listed loop still exists: stale %v", stale), len(stale) == 0)
 	addObl("scan-not-empty", fmt.Sprintf("%d functions scanned", n), n > 0)
+	if len(ms.Sorts) > 0 {
+		var bad []string
+		for fk, want := range ms.Sorts {
+			fn := w.Funcs[fk]
+			if fn == nil {
+				bad = append(bad, fk+" (no such function)")
+				continue
+			}
+			canon, custom := 0, 0
+			var cnt func(f *ssa.Function)
+			cnt = func(f *ssa.Function) {
+				for _, blk := range f.Blocks {
+					for _, ins := range blk.Instrs {
+						ci, ok := ins.(ssa.CallInstruction)
+						if !ok {
+							continue
+						}
+						callee := ci.Common().StaticCallee()
+						if callee == nil {
+							continue
+						}
+						switch nm := extName(callee); {
+						case nm == "sort.Strings" || nm == "sort.Ints" || strings.HasPrefix(nm, "slices.Sort[") || nm == "slices.Sort":
+							canon++
+						case nm == "sort.Slice" || nm == "sort.SliceStable" || nm == "sort.Sort" || nm == "sort.Stable" || strings.HasPrefix(nm, "slices.SortFunc") || strings.HasPrefix(nm, "slices.SortStableFunc"):
+							custom++
+						}
+					}
+				}
+				for _, a := range f.AnonFuncs {
+					cnt(a)
+				}
+			}
+			cnt(fn)
+			if canon != want || custom != 0 {
+				bad = append(bad, fmt.Sprintf("%s (%d canonical sorts found, %d reviewed; %d sorts with a custom comparator)", fk, canon, want, custom))
+			}
+		}
+		sort.Strings(bad)
+		addObl("collected-keys-sorted-canonically", fmt.Sprintf("the functions whose map iterations are order-independent because the collected keys are sorted use the canonical order of the keys (sort.Strings / sort.Ints / slices.Sort), as often as reviewed, and no custom comparator: %v", bad), len(bad) == 0)
+	}
 	fo.VC.Trusted = []string{fmt.Sprintf("order-independence of the %d reviewed map iterations in %v is argued per loop in spec/footprints/maprange_%s.json, not proved", len(ms.Loops), ms.Packages, name)}
 }
 
